@@ -64,6 +64,7 @@ func vfProdRegionsAt(run *vfProdRun, before int64) []string {
 	if c.Conf.Idempotent {
 		// history-based regions: what happened before the symptom
 		connErr, bump := false, false
+		epochOnWire, explained := int64(0), int64(0)
 		answeredOK := map[string]bool{}
 		for _, e := range run.sim.hist.snapshot() {
 			if e.Seq >= before {
@@ -73,13 +74,15 @@ func vfProdRegionsAt(run *vfProdRun, before int64) []string {
 			case "produce-drop", "produce-silent", "broker-down":
 				connErr = true
 			case "produce-part":
-				if len(e.Vals) >= 8 && e.Vals[5] > 0 {
-					bump = true
+				if len(e.Vals) >= 8 && e.Vals[5] > epochOnWire {
+					epochOnWire = e.Vals[5]
 				}
 				if len(e.Vals) >= 8 {
 					// a batch that was answered without an error code and comes again: the client lost the answer on its side
 					// (read timeout on a loaded machine), which is a connection-level failure as far as the producer is concerned
-					k := fmt.Sprintf("%s/%d/%d/%d", e.Key, e.Vals[4], e.Vals[5], e.Vals[6])
+					// (the same records under the same producer id, epoch and sequence; other records under a sequence range that
+					// was used before are not a resend, they are a sequence error of the client)
+					k := fmt.Sprintf("%s/%d/%d/%d/%v", e.Key, e.Vals[4], e.Vals[5], e.Vals[6], e.Ids)
 					if answeredOK[k] {
 						connErr = true
 					}
@@ -87,11 +90,30 @@ func vfProdRegionsAt(run *vfProdRun, before int64) []string {
 						answeredOK[k] = true
 					}
 				}
-			case "outcome":
-				if e.Note != "" {
-					bump = true // an error outcome for a sequenced message bumps the epoch and zeroes every partition's sequence
-				}
 			}
+		}
+		// An error outcome for a sequenced message bumps the epoch and zeroes every partition's sequence. The known defect
+		// needs OTHER sequenced messages buffered or in flight at that moment; a bump on an otherwise idle producer is
+		// outside the region. Error outcomes are taken from the whole history (they are collected with a lag); the bump
+		// itself cannot precede the broker's processing of the last request that carried the failing message (bumpLo),
+		// so only failures with bumpLo < before can have influenced what was on the wire at `before`.
+		for _, e := range run.sim.hist.snapshot() {
+			if e.Kind != "outcome" || e.Note == "" {
+				continue
+			}
+			pending, bumpLo := vfOthersPendingAtBump(run, e.N, e.Seq)
+			if bumpLo >= before {
+				continue
+			}
+			if bumpLo >= 0 {
+				explained++
+			}
+			if pending {
+				bump = true
+			}
+		}
+		if epochOnWire > explained {
+			bump = true // an epoch on the wire whose cause was never collected: undecided, treated as inside
 		}
 		if connErr {
 			out = append(out, "idem-conn-error")
@@ -101,6 +123,49 @@ func vfProdRegionsAt(run *vfProdRun, before int64) []string {
 		}
 	}
 	return out
+}
+
+// vfOthersPendingAtBump reports whether, when message f failed for good (its error outcome was recorded at errSeq), another
+// message may have been buffered or in flight. Both bounds err on the side of "yes": the bump cannot have happened before
+// the broker processed the last request that carried f (bumpLo), so a message is certainly finished only if its outcome
+// was recorded before that; and it is certainly not yet in the pipeline only if its submission began after f's error
+// outcome had been recorded. A message f that never reached a broker gives no lower bound at all.
+func vfOthersPendingAtBump(run *vfProdRun, f int, errSeq int64) (pending bool, bumpLo int64) {
+	evs := run.sim.hist.snapshot()
+	bumpLo = -1
+	for _, e := range evs {
+		if e.Seq >= errSeq {
+			break
+		}
+		if e.Kind == "produce-part" {
+			for _, id := range e.Ids {
+				if id == f {
+					bumpLo = e.Seq
+				}
+			}
+		}
+	}
+	began := map[int]bool{}
+	done := map[int]bool{}
+	for _, e := range evs {
+		if e.Seq >= errSeq {
+			break
+		}
+		switch e.Kind {
+		case "submit-begin":
+			began[e.N] = true
+		case "outcome":
+			if e.Seq < bumpLo {
+				done[e.N] = true
+			}
+		}
+	}
+	for m := range began {
+		if m != f && !done[m] {
+			return true, bumpLo
+		}
+	}
+	return false, bumpLo
 }
 
 func vfClassifyProd(run *vfProdRun, r *vfcore.Rec) (failedProduce bool, firstFailSeq int64) {
@@ -718,11 +783,16 @@ func vfNonTrivialProd(id string, run *vfProdRun, r *vfcore.Rec, failed bool, fir
 			r.NonTrivial("")
 		}
 	case "C05":
-		// >=1 resend whose original had been appended
+		// >=1 resend whose original had been appended, or a batch sent under a later producer epoch
 		seen := map[string]bool{}
 		for _, e := range v.produces {
 			if len(e.Vals) < 8 {
 				continue
+			}
+			if e.Vals[5] > 0 {
+				r.NonTrivial("")
+				r.Class("sent-under-later-epoch")
+				return
 			}
 			k := fmt.Sprintf("%s/%d/%d/%d", e.Key, e.Vals[4], e.Vals[5], e.Vals[6])
 			if seen[k] {
